@@ -200,7 +200,8 @@ def run(ctx, chk):
                 try:
                     words = asmx.frame(ctx, rtype, rid, opw)
                 except Anchor as ex:
-                    chk.bad(RF, inst, "not analysable: %s" % ex, WF, key="C02:frame-shape")
+                    # the frame inspects its operands (they are opaque here): the frames on concrete operands below decide
+                    chk.analysed.setdefault("symbolic_frames_skipped", []).append(str(ex)[:120])
                     continue
                 n = 1 + int(rtype) + int(rid) + sum(opw)
                 body = ([("sym", "RTYPE")] if rtype else []) + ([("sym", "RID")] if rid else []) + [("operand-word", i, j) for i, k in enumerate(opw) for j in range(k)]
@@ -215,6 +216,34 @@ def run(ctx, chk):
                 good = words[:2] == [("pre", 0), ("pre", 1)] and cnt == (n << 16) and words[3:] == body
                 chk.check(RF, good, inst, "emits %s; expected first word opcode | (%d << 16) followed by result type, result id and the operand words in order" % (
                     str(words[2:6])[:200], n), WF, key="C02:frame")
+    # the same on real instruction values with concrete operands of different kinds (the word count must cover what each operand really emits)
+    def ref_words(o):
+        k, pl = o[1].split("::")[-1], o[2][0]
+        if k == "LiteralBit64":
+            return [pl & 0xffffffff, pl >> 32]
+        if k == "LiteralString":
+            raw_ = pl[1].encode("utf-8") + b"\0"
+            raw_ += b"\0" * (-len(raw_) % 4)
+            return [int.from_bytes(raw_[i:i + 4], "little") for i in range(0, len(raw_), 4)]
+        return [pl]
+    I_, B32, B64, ST = (lambda v: ("enum", "Operand::IdRef", [v])), (lambda v: ("enum", "Operand::LiteralBit32", [v])), \
+        (lambda v: ("enum", "Operand::LiteralBit64", [v])), (lambda t: ("enum", "Operand::LiteralString", [("str", t)]))
+    nreal = 0
+    for opsr, label in (([I_(7), B32(9)], "an id and a 32-bit literal"), ([B64(0x1122334455667788)], "a 64-bit literal"), ([ST("")], "the empty string"),
+                        ([ST("abc")], "a 3-byte string"), ([ST("abcd")], "a 4-byte string"), ([ST("h\u00e9llo")], "a 6-byte string of 5 characters"), ([ST("\u00e9\u00e9")], "a 4-byte string of 2 characters"), ([ST("\u00e9\u00e9\u00e9")], "a 6-byte string of 3 characters"),
+                        ([I_(7), ST("h\u00e9llo"), B64(0x1122334455667788), B32(9)], "id, string, 64-bit and 32-bit literal"), ([], "no operands")):
+        for rt_, rid_ in ((3, 5), (None, 5), (3, None), (None, None)):
+            nreal += 1
+            inst = "Instruction::assemble_into(result type %s, result id %s, operands: %s)" % (rt_ is not None, rid_ is not None, label)
+            try:
+                cnt, body = asmx.frame_real(ctx, rt_, rid_, opsr)
+            except Anchor as ex:
+                chk.bad(RF, inst, "not analysable: %s" % ex, WF, key="C02:frame-real-shape")
+                continue
+            wantb = ([rt_] if rt_ is not None else []) + ([rid_] if rid_ is not None else []) + [w_ for o_ in opsr for w_ in ref_words(o_)]
+            chk.check(RF, cnt == 1 + len(wantb) and body == wantb, inst, "emits word count %s and words %s; expected word count %d and words %s" % (cnt, str(body)[:160], 1 + len(wantb), wantb),
+                      WF, key="C02:frame-real")
+    chk.floor(RF, "frames on concrete operands", nreal, 40)
     RW = chk.rule("R-WORDS", "strings: assemble_str emits, for every byte length, the full 4-byte little-endian chunks followed by exactly one "
                   "final word holding the remaining bytes, zero padded (so a NUL terminator always follows); Decoder::string consumes "
                   "first_null/4 + 1 words")
